@@ -89,6 +89,8 @@ type CycleStep struct {
 	Fault   *FaultSpec `json:"fault,omitempty"`   // active during this cycle only
 	PollFault *FaultSpec `json:"pollFault,omitempty"` // active during the RPM polls before this cycle only
 	Mid     *MidIntrusion `json:"mid,omitempty"`  // interference in the middle of this cycle
+	// CmdFail (cmd fans): during this cycle every call of the tool fails (exit status 1, "device busy")
+	CmdFail bool `json:"cmdFail,omitempty"`
 }
 
 type Scenario struct {
@@ -192,6 +194,7 @@ func buildWorld(ctx *Ctx, sc *Scenario) *World {
 	w := &World{Sc: sc}
 	w.Curve = newScriptCurve()
 	w.PwmMap = sc.Map.build()
+	var ctrlMap map[int]int // the map fan2go works with, when it is not simply w.PwmMap
 	if w.PwmMap != nil {
 		w.Supp = refSupported(w.PwmMap)
 	}
@@ -235,6 +238,14 @@ func buildWorld(ctx *Ctx, sc *Scenario) *World {
 		if sc.Fan.ViaLoader {
 			// the RPM window too is what the file says (next to a different temperature window)
 			loaderWindow.Rpm, loaderWindow.Temp = sc.Window, sc.Window*7+13
+			if w.PwmMap != nil && len(w.PwmMap) <= 64 {
+				// ... and so is the PWM map (a configured pwmMap); fan2go gets the map as loaded, the expectation stays the map as written
+				m := map[int]int{}
+				for k, v := range w.PwmMap {
+					m[k] = v
+				}
+				cfg.PwmMap = &m
+			}
 			loaded, lerr := fanConfigViaLoader(ctx, cfg)
 			loaderWindow.Rpm = 0
 			if lerr != nil {
@@ -242,6 +253,9 @@ func buildWorld(ctx *Ctx, sc *Scenario) *World {
 			}
 			cfg = loaded
 			configuration.CurrentConfig.RpmRollingWindowSize = loaderWindowLoaded.Rpm
+			if cfg.PwmMap != nil {
+				ctrlMap = *cfg.PwmMap
+			}
 		}
 		fan, err := fans.NewFan(cfg)
 		if err != nil {
@@ -267,7 +281,7 @@ func buildWorld(ctx *Ctx, sc *Scenario) *World {
 		cmdScript(filepath.Join(dir, "set.sh"), "if [ -e "+dir+"/setfail ]; then exit 1; fi; echo \"$1\" > "+dir+"/pwm; echo \"$1\" >> "+dir+"/writes")
 		// while the file "garble" exists the tool answers with a message instead of the value (exit status 0)
 		// while the file "flaky" exists every second query is answered that way (a rate-limited embedded controller)
-		cmdScript(filepath.Join(dir, "get.sh"), "if [ -e "+dir+"/flaky ]; then n=$(cat "+dir+"/flaky); n=$((n+1)); echo $n > "+dir+"/flaky; if [ $((n%2)) = 0 ]; then echo 'device busy'; exit 0; fi; fi; if [ -e "+dir+"/garble ]; then echo 'device busy'; else cat "+dir+"/pwm; fi")
+		cmdScript(filepath.Join(dir, "get.sh"), "if [ -e "+dir+"/getfail ]; then echo 'device busy' >&2; exit 1; fi; if [ -e "+dir+"/flaky ]; then n=$(cat "+dir+"/flaky); n=$((n+1)); echo $n > "+dir+"/flaky; if [ $((n%2)) = 0 ]; then echo 'device busy'; exit 0; fi; fi; if [ -e "+dir+"/garble ]; then echo 'device busy'; else cat "+dir+"/pwm; fi")
 		cmdScript(filepath.Join(dir, "rpm.sh"), "p=$(cat "+dir+"/pwm); t=$(cat "+dir+"/theta); if [ \"$p\" -lt \"$t\" ]; then echo 0; else echo $((200+p*"+strconv.Itoa(sc.Plant.MaxRpm)+"/255)); fi")
 		cfg := configuration.FanConfig{ID: id, Curve: w.Curve.Id, NeverStop: sc.Fan.NeverStop,
 			Cmd: &configuration.CmdFanConfig{
@@ -298,6 +312,14 @@ func buildWorld(ctx *Ctx, sc *Scenario) *World {
 		if sc.Fan.ViaLoader {
 			// the RPM window too is what the file says (next to a different temperature window)
 			loaderWindow.Rpm, loaderWindow.Temp = sc.Window, sc.Window*7+13
+			if w.PwmMap != nil && len(w.PwmMap) <= 64 {
+				// ... and so is the PWM map (a configured pwmMap); fan2go gets the map as loaded, the expectation stays the map as written
+				m := map[int]int{}
+				for k, v := range w.PwmMap {
+					m[k] = v
+				}
+				cfg.PwmMap = &m
+			}
 			loaded, lerr := fanConfigViaLoader(ctx, cfg)
 			loaderWindow.Rpm = 0
 			if lerr != nil {
@@ -305,6 +327,9 @@ func buildWorld(ctx *Ctx, sc *Scenario) *World {
 			}
 			cfg = loaded
 			configuration.CurrentConfig.RpmRollingWindowSize = loaderWindowLoaded.Rpm
+			if cfg.PwmMap != nil {
+				ctrlMap = *cfg.PwmMap
+			}
 		}
 		fan, err := fans.NewFan(cfg)
 		if err != nil {
@@ -321,7 +346,10 @@ func buildWorld(ctx *Ctx, sc *Scenario) *World {
 		w.Fan = s
 	}
 	w.Fan.SetRpmAvg(sc.PriorRpm)
-	w.Ctrl = newController(w.Fan, sc.Loop.build(), newMemPersistence(), w.PwmMap)
+	if ctrlMap == nil {
+		ctrlMap = w.PwmMap
+	}
+	w.Ctrl = newController(w.Fan, sc.Loop.build(), newMemPersistence(), ctrlMap)
 	return w
 }
 
@@ -510,6 +538,10 @@ func runScenario(ctx *Ctx, sc *Scenario, obs Observer) {
 		if st.Intrude != nil && st.Intrude.Unreadable && w.cmdDir != "" {
 			_ = os.WriteFile(filepath.Join(w.cmdDir, "garble"), []byte("1"), 0644)
 		}
+		if st.CmdFail && w.cmdDir != "" {
+			_ = os.WriteFile(filepath.Join(w.cmdDir, "getfail"), []byte("1"), 0644)
+			_ = os.WriteFile(filepath.Join(w.cmdDir, "setfail"), []byte("1"), 0644)
+		}
 		panicked, msg, stuck := GuardStuck(func() { rec.Err = w.Ctrl.UpdateFanSpeed() })
 		if panicked {
 			rec.Panic = msg
@@ -527,6 +559,10 @@ func runScenario(ctx *Ctx, sc *Scenario, obs Observer) {
 		}
 		if st.Intrude != nil && st.Intrude.Unreadable && w.cmdDir != "" {
 			_ = os.Remove(filepath.Join(w.cmdDir, "garble"))
+		}
+		if st.CmdFail && w.cmdDir != "" {
+			_ = os.Remove(filepath.Join(w.cmdDir, "getfail"))
+			_ = os.Remove(filepath.Join(w.cmdDir, "setfail"))
 		}
 		d.Rules = nil
 		mid = nil
